@@ -188,9 +188,13 @@ class Base:
         uneliminatable_annotations = frozenset(a for a in annotations if not (a.eliminatable or a.relocatable))
         relocatable_annotations = frozenset(a for a in annotations if not a.eliminatable and a.relocatable)
 
+        # annotations that must not be eliminated stay attached somewhere below this node no matter how the
+        # annotations of this node itself were chosen
+        for a in b_args:
+            uneliminatable_annotations |= a._uneliminatable_annotations
+
         if not skip_child_annotations:
             for a in b_args:
-                uneliminatable_annotations |= a._uneliminatable_annotations
                 relocatable_annotations |= a._relocatable_annotations
 
             annotations = tuple(frozenset((*annotations, *relocatable_annotations)))
@@ -250,6 +254,9 @@ class Base:
             relocatable_annotations = frozenset(
                 anno for anno in annotations if not anno.eliminatable and anno.relocatable
             )
+            for arg in args:
+                if isinstance(arg, Base):
+                    uneliminatable_annotations |= arg._uneliminatable_annotations
 
             cache = type(self)._hash_cache
             h = Base._calc_hash(op, args, annotations, length)
